@@ -184,8 +184,16 @@ binary_encoding_handlers = {
     BINARY_ENCODING_URLSAFE_BASE64: ByteArray.to_urlsafe_base64,
 }
 
+def _default_binary_decoding(b):
+    # raw binary data can't be text, a number, a map ...
+    if not isinstance(b, (six.binary_type, bytearray, memoryview, mmap)):
+        raise ValidationError(b)
+
+    return (b,)
+
+
 binary_decoding_handlers = {
-    None: lambda x: (x,),
+    None: _default_binary_decoding,
     BINARY_ENCODING_HEX: ByteArray.from_hex,
     BINARY_ENCODING_BASE64: ByteArray.from_base64,
     BINARY_ENCODING_URLSAFE_BASE64: ByteArray.from_urlsafe_base64,
